@@ -39,7 +39,54 @@ def rand_net(rnd, nmin=2, nmax=8, dens=None, kind=None):
     return nodes, edges
 
 
+class DynamicSIR(SIR, AddDelete):
+    '''the multiple-inheritance combination (test/test_adddeletesir.py)'''
+    def addNewNode(self, **kwds):
+        n = super().addNewNode(**kwds)
+        self.setCompartment(n, SIR.SUSCEPTIBLE)
+        return n
+
+    def removeNode(self, n):
+        self.changeCompartment(n, SIR.REMOVED)
+        super().removeNode(n)
+
+
+class CompartmentedAddDelete(AddDelete):
+    '''the named-sequence recipe of doc/cookbook/dynamic-population.rst and test/test_adddeletesir.py, verbatim'''
+    DISEASE = 'diseaseModel'
+    VP_MODE = 'seq'
+
+    def addNewNode(self, **kwds):
+        n = super().addNewNode(**kwds)
+        self.container()[self.DISEASE].setCompartment(n, SIR.SUSCEPTIBLE)
+        return n
+
+    def removeNode(self, n):
+        self.container()[self.DISEASE].changeCompartment(n, SIR.REMOVED)
+        super().removeNode(n)
+
+
+class FullAddDelete(CompartmentedAddDelete):
+    '''the recipe completed: edges and node removal also go through the disease model'''
+    VP_MODE = 'full'
+
+    def addEdge(self, n, m, **kwds):
+        js = getattr(self, '_vp_js', None)
+        if js is not None: js.append(m)
+        self.container()[self.DISEASE].addEdge(n, m, **kwds)
+
+    def removeNode(self, n):
+        d = self.container()[self.DISEASE]
+        d.changeCompartment(n, SIR.REMOVED)
+        self.locus(self.NODES).removeHandler(self.network(), n)
+        d.removeNode(n)
+
+
+ADCLASSES = dict(AddDelete=AddDelete, DynamicSIR=DynamicSIR, CompartmentedAddDelete=CompartmentedAddDelete, FullAddDelete=FullAddDelete)
+
+
 def mkproc(p):
+    if p['cls'] in ADCLASSES: return ADCLASSES[p['cls']]()
     if p['cls'] == 'Monitor': return Monitor()
     if p['cls'] == 'NetworkStatistics': return NetworkStatistics()
     if p['cls'] == 'Script':
@@ -67,12 +114,12 @@ def build_case(spec):
     def build():
         ps = [mkproc(p) for p in procs]
         if spec.get('seq', 'bare') == 'bare' and len(ps) == 1: return ps[0]
-        if spec['seq'] == 'dict': return ProcessSequence({(p.get('name') or f'p{i}'): q for i, (p, q) in enumerate(zip(procs, ps))})
+        if spec['seq'] == 'dict': return ProcessSequence({(p.get('key') or p.get('name') or f'p{i}'): q for i, (p, q) in enumerate(zip(procs, ps))})
         if spec['seq'] == 'nested' and len(ps) >= 2: return ProcessSequence([ProcessSequence(ps[:1]), ProcessSequence(ps[1:])])
         return ProcessSequence(ps)
     params = {}
     for p in procs: params.update(p.get('params', {}))
-    return dict(build=build, dyn=spec['dyn'], nodes=spec['nodes'], edges=[tuple(e) for e in spec['edges']], maxT=spec['maxT'],
+    return dict(procs_json=procs, build=build, dyn=spec['dyn'], nodes=spec['nodes'], edges=[tuple(e) for e in spec['edges']], maxT=spec['maxT'],
                 seed=spec['seed'], params=params, specials=spec.get('specials', ()), pspecial=spec.get('pspecial', 0.0),
                 oracles=[ORACLES[o] for o in spec.get('oracles', [])], finals=[FINALS[o] for o in spec.get('oracles', []) if o in FINALS])
 
@@ -550,3 +597,294 @@ def final_monitor(d, ex, res, md, spec):
 
 
 FINALS['monitor'] = final_monitor
+
+
+# ---------------------------------------------------------------------------------------------------------------
+# C11: composition, named instances, parameter decoration
+NAMEABLE = ['SIR', 'SIS', 'SIRS', 'SIR_FixedRecovery', 'SIS_FixedRecovery', 'Opinion', 'SIR_VariableInfection']
+
+
+def gen_composed(rnd, dyn=None):
+    k = rnd.choice([2, 2, 3])
+    nodes, edges = rand_net(rnd, 3, 7)
+    procs = []
+    for i in range(k):
+        cls = rnd.choice([c for c in NAMEABLE if c != 'SIR_VariableInfection' or all(q['cls'] != c for q in procs)])   # the model carries one infectivity table
+        name = 'abc'[i]
+        plain = shipped_params(cls, rnd)
+        params = {}
+        how = {}
+        for key, v in plain.items():
+            mode = rnd.choice(['deco', 'deco', 'both', 'plain'])
+            how[key] = mode
+            if mode in ('deco', 'both'): params[f"{key}@{name}"] = v
+            if mode == 'both': params[key] = rnd.choice([x for x in D[1:-1] if x != v] or [0.5]) if key.split('.')[-1][0] == 'p' else v + 1.0
+            if mode == 'plain': params[key] = v
+        procs.append(dict(cls=cls, name=name, params=params, expect={key: v for key, v in plain.items()}))
+    # undecorated keys are shared: a later component's plain value overrides an earlier one's in the merged dict; make expectations follow
+    merged = {}
+    for p in procs: merged.update(p['params'])
+    for p in procs:
+        for key in list(p['expect']):
+            dk = f"{key}@{p['name']}"
+            p['expect'][key] = merged[dk] if dk in merged else merged.get(key)
+    if rnd.random() < 0.4: procs.append(dict(cls='Monitor', name=None, params={Monitor.DELTA: rnd.choice([0.5, 1.0])}))
+    if rnd.random() < 0.3: procs.append(dict(cls='NetworkStatistics', name=None, params={}))
+    return dict(procs=procs, seq=rnd.choice(['list', 'dict', 'nested']), dyn=dyn or rnd.choice(['sto', 'syn']), nodes=nodes, edges=edges,
+                maxT=rnd.choice([2.0, 4.0]), seed=rnd.random(), specials=[0.25, 0.5], pspecial=0.1,
+                oracles=['clock', 'member', 'loci', 'compose'])
+
+
+SHARED_ATTRS = {'tOccupied', 'tHitting', 'hittingProcess', 'infection_time', 'vaccincated', 'vaccination_time'}
+
+
+def oracle_compose(d, ex, cur, t, p, name, e):
+    """C11 per event: an event of one instance changes only state decorated with its own name (or the documented shared attributes)"""
+    g = d.network()
+    snap = {('n', n): dict(g.nodes[n]) for n in g.nodes()}
+    snap.update({('e', frozenset((a, b))): dict(data) for (a, b, data) in g.edges(data=True)})
+    prev = d.__dict__.get('_vp_snap')
+    d._vp_snap = snap
+    if prev is None or p is None or not isinstance(p, CompartmentedModel): return None
+    own = p.instanceName()
+    for k, attrs in snap.items():
+        old = prev.get(k, {})
+        for a in set(attrs) | set(old):
+            if attrs.get(a) != old.get(a):
+                base, _, inst = a.partition('@')
+                if a in SHARED_ATTRS: continue
+                if (inst or None) != own:
+                    return ('compose', f"event {name} of instance {own} changed attribute {a} of {k[0]} {sorted(k[1]) if k[0] == 'e' else k[1]}")
+    return None
+
+
+def final_compose(d, ex, res, md, spec):
+    """C11 at the end: registered probabilities follow the decoration rule; schedule = union of the components' events; results union;
+    maximum time; equilibrium"""
+    top = d.process()
+    leaves = top.allProcesses()
+    want = []
+    def flat(p):
+        if isinstance(p, ProcessSequence):
+            for q in p.processes(): flat(q)
+        else: want.append(p)
+    flat(top)
+    if [id(x) for x in leaves] != [id(x) for x in want]: return "allProcesses() is not the left-to-right list of the leaves"
+    per = d.perElementEventDistribution(0.0); cat = [x for q in leaves for x in q.perElementEventDistribution(0.0)]
+    if [(lkey(l), pr, nm) for (l, pr, f, nm) in per] != [(lkey(l), pr, nm) for (l, pr, f, nm) in cat]:
+        return "the dynamics' per-element event distribution is not the concatenation of the components' distributions"
+    fx = d.fixedRateEventDistribution(0.0); catf = [x for q in leaves for x in q.fixedRateEventDistribution(0.0)]
+    if [(lkey(l), pr, nm) for (l, pr, f, nm) in fx] != [(lkey(l), pr, nm) for (l, pr, f, nm) in catf]:
+        return "the dynamics' fixed-rate event distribution is not the concatenation of the components' distributions"
+    if top.maximumTime() != max([q.maximumTime() for q in leaves] + [0]): return f"maximumTime {top.maximumTime()} is not the largest component maximum"
+    for tt in (0.0, spec['maxT'] - 0.5, spec['maxT'], spec['maxT'] + 1):
+        if bool(top.atEquilibrium(tt)) != all(bool(q.atEquilibrium(tt)) for q in leaves): return f"atEquilibrium({tt}) differs from 'every component is'"
+    exp_res = {}
+    for q in leaves: exp_res.update(q.results())
+    for k, v in exp_res.items():
+        if isinstance(v, (int, float, str)) and res.get(k) != v: return f"results[{k}] = {res.get(k)}, the last component reporting it gives {v}"
+    # decoration rule, read off what was registered
+    for p, q in zip(spec['procs_json'], [x for x in leaves]):
+        exp = p.get('expect')
+        if not exp: continue
+        for key, v in exp.items():
+            short = key.split('.')[-1]
+            if short in ('pInfect', 'pRemove', 'pRecover', 'pResuscept', 'pAffect', 'pStifle'):
+                regs = [pr for (l, pr, f, nm) in q._perElementEvents + q._perLocusEvents]
+                if v not in regs: return f"instance {q.instanceName()} of {type(q).__name__}: parameter {short} should be {v} (own decorated name, else shared name), registered probabilities are {regs}"
+            if short in ('pInfected', 'pAffected'):
+                if v not in q._compartments.values(): return f"instance {q.instanceName()}: {short} should be {v}, initial distribution is {list(q._compartments.values())}"
+            if short == 'tInfected' and getattr(q, '_tInfected', v) != v: return f"instance {q.instanceName()}: tInfected should be {v}, is {q._tInfected}"
+    return None
+
+
+ORACLES['compose'] = oracle_compose
+FINALS['compose'] = final_compose
+
+
+def gen_deco(rnd):
+    keys = ['p', 'q', 'p.x']
+    names = [None, 'a', 'b', 'ab']
+    d = {}
+    for k in keys:
+        for n in names:
+            if rnd.random() < 0.4: d[k + ('@' + n if n else '')] = rnd.randrange(100)
+    return dict(mode='deco', params=d, name=rnd.choice(names), key=rnd.choice(keys), dflt=rnd.choice([None, None, 7]), seed=0, dyn='sto', procs=[])
+
+
+def run_deco(spec):
+    p = Process(spec['name']) if spec['name'] else Process()
+    k = spec['key'] if spec['dflt'] is None else (spec['key'], spec['dflt'])
+    try:
+        out = str(p.getParameters(dict(spec['params']), [k])[0])
+    except KeyError:
+        out = "KeyError"
+    inp = [f"DECO {spec['name'] or '-'} {spec['key']} {'-' if spec['dflt'] is None else spec['dflt']} " + ' '.join(f"{a}={b}" for a, b in spec['params'].items())]
+    # the rule itself, as the property states it
+    viol = []
+    dk = spec['key'] + ('@' + spec['name'] if spec['name'] else '')
+    want = spec['params'].get(dk, spec['params'].get(spec['key'], spec['dflt']))
+    if out != (str(want) if want is not None else "KeyError"):
+        viol.append(('compose', f"getParameters({spec['params']}, {k}) for instance {spec['name']} gave {out}, the rule gives {want}"))
+    rt = Process(spec['name']) if spec['name'] else Process()
+    pp = rt.setParameters({}, {spec['key']: 5})
+    if rt.getParameters(pp, [spec['key']]) != [5]: viol.append(('compose', "setParameters/getParameters do not round-trip"))
+    return inp, [out], dict(events=1, oracle=viol, exc=None, handlers=[], tags=['deco'])
+
+
+RUNNERS['deco'] = run_deco
+
+
+class _Stub(Process):
+    def __init__(self, i, mt, eq, res):
+        super().__init__(); self._i = i; self._mt = mt; self._eq = eq; self._res = res
+    def maximumTime(self): return self._mt
+    def atEquilibrium(self, t): return self._eq
+    def results(self): return dict(self._res)
+
+
+def gen_seqtree(rnd):
+    cnt = [0]
+    def tree(depth):
+        out = []
+        for _ in range(rnd.choice([0, 1, 2, 2, 3])):
+            if depth < 3 and rnd.random() < 0.35: out.append(dict(seq=tree(depth + 1), named=rnd.random() < 0.5))
+            else:
+                cnt[0] += 1
+                out.append(dict(leaf=cnt[0], mt=rnd.randrange(0, 6), eq=rnd.random() < 0.8,
+                                res={rnd.choice('abcd'): rnd.randrange(100) for _ in range(rnd.choice([0, 1, 2]))}))
+        return out
+    return dict(mode='seqtree', tree=tree(0), named=rnd.random() < 0.5, seed=0, dyn='sto', procs=[])
+
+
+def run_seqtree(spec):
+    toks = []
+    def mk(items, named):
+        ps = []
+        for it in items:
+            if 'leaf' in it:
+                ps.append(_Stub(it['leaf'], it['mt'], it['eq'], it['res']))
+                toks.append(f"{it['leaf']}:{it['mt']}:{1 if it['eq'] else 0}:" + ','.join(f"{k}={v}" for k, v in it['res'].items()))
+            else:
+                toks.append('('); ps.append(mk(it['seq'], it['named'])); toks.append(')')
+        return ProcessSequence({f"p{j}": p for j, p in enumerate(ps)} if named else ps)
+    top = mk(spec['tree'], spec['named'])
+    res = top.results()
+    leaves = [p._i for p in top.allProcesses()]
+    out = f"leaves=[{', '.join(map(str, leaves))}] maxT={top.maximumTime()} eq={'true' if top.atEquilibrium(0.0) else 'false'} res=[{', '.join(f'({k}, {res[k]})' for k in sorted(res))}]"
+    viol = []
+    # the property's statement, directly
+    flat = []
+    def walk(items):
+        for it in items:
+            if 'leaf' in it: flat.append(it)
+            else: walk(it['seq'])
+    walk(spec['tree'])
+    if leaves != [it['leaf'] for it in flat]: viol.append(('compose', f"allProcesses() gives {leaves}, the leaves left to right are {[it['leaf'] for it in flat]}"))
+    if top.maximumTime() != max([it['mt'] for it in flat] + [0]): viol.append(('compose', f"maximumTime {top.maximumTime()} is not the largest component maximum"))
+    if bool(top.atEquilibrium(0.0)) != all(it['eq'] for it in flat): viol.append(('compose', "atEquilibrium differs from 'every component is'"))
+    want = {}
+    for it in flat: want.update(it['res'])
+    if res != want: viol.append(('compose', f"results {res}, the union with later components winning is {want}"))
+    return ["SEQ " + ' '.join(toks)], [out], dict(events=len(flat), oracle=viol, exc=None, handlers=[], tags=['seqtree'])
+
+
+RUNNERS['seqtree'] = run_seqtree
+
+
+# ---------------------------------------------------------------------------------------------------------------
+# C19: addition-deletion
+def gen_adddel(rnd, dyn=None, combo=None):
+    combo = combo or rnd.choice(['alone', 'alone', 'inherit', 'inherit', 'seq', 'full'])
+    nodes, edges = rand_net(rnd, 2, 7)
+    n = len(nodes)
+    regime = rnd.choice(['mixed', 'mixed', 'growth', 'decay'])
+    pa, pd = dict(mixed=(rnd.choice([0.25, 0.5, 1.0]), rnd.choice([0.25, 0.5, 1.0])), growth=(rnd.choice([0.5, 1.0]), 0.0),
+                  decay=(0.0, rnd.choice([0.5, 1.0, 2.0])))[regime]
+    # `add` does not return when fewer than c other nodes exist (the property exempts that case): keep c = 1 unless the population cannot shrink below c
+    c = rnd.choice([1, 2, 3]) if regime == 'growth' and n > 3 else (rnd.choice([0, 1, 1]) if regime != 'decay' else rnd.choice([0, 1, 2]))
+    c = min(c, n - 1) if regime == 'growth' else c
+    ad = {AddDelete.P_ADD: pa, AddDelete.P_DELETE: pd, AddDelete.DEGREE: c}
+    sir = {SIR.P_INFECTED: rnd.choice([0.25, 0.5]), SIR.P_INFECT: rnd.choice([0.25, 0.5, 1.0]), SIR.P_REMOVE: rnd.choice([0.125, 0.25])}
+    if combo == 'alone': procs = [dict(cls='AddDelete', name=None, params=ad)]; seq = rnd.choice(['bare', 'list'])
+    elif combo == 'inherit': procs = [dict(cls='DynamicSIR', name=None, params={**ad, **sir})]; seq = rnd.choice(['bare', 'list'])
+    else:
+        procs = [dict(cls='SIR', name=None, key='diseaseModel', params=sir),
+                 dict(cls='CompartmentedAddDelete' if combo == 'seq' else 'FullAddDelete', name=None, key='population', params=ad)]
+        seq = 'dict'
+    if rnd.random() < 0.25 and seq != 'dict' and seq != 'bare': procs.append(dict(cls='Monitor', name=None, params={Monitor.DELTA: 1.0}))
+    return dict(procs=procs, seq=seq, dyn=dyn or rnd.choice(['sto', 'sto', 'syn']), nodes=nodes, edges=edges, maxT=rnd.choice([2.0, 3.0, 5.0]),
+                seed=rnd.random(), specials=[0.25, 0.5], pspecial=0.1, combo=combo,
+                oracles=['clock', 'adddel'] if combo == 'seq' else ['clock', 'member', 'adddel'], maxevents=150)
+
+
+def oracle_adddel(d, ex, cur, t, p, name, e):
+    """C19 per event: all-nodes locus = node set; a new node has a fresh name and exactly c distinct other neighbours; a deleted
+    node is gone from the network and from every locus of every process"""
+    g = d.network()
+    st = d.__dict__.setdefault('_vp_ad', dict(prev=None, adds=0, dels=0, n0=None, born=set(), dead=set(), k2=False))
+    if st['k2']: return None          # the sequence recipe's bookkeeping has already diverged (reported once); what follows is a consequence
+    cur_nodes = set(g.nodes())
+    ads = [q for q in ex.leaves if isinstance(q, AddDelete)]
+    ex._vp_combo = 'seq' if any(type(q) is CompartmentedAddDelete for q in ads) else 'other'
+    r = None
+    for q in ads:
+        have = set(q.locus(AddDelete.NODES))
+        if have != cur_nodes: r = r or f"all-nodes locus holds {sorted(have)}, the network's nodes are {sorted(cur_nodes)}"
+    ef = getattr(cur.get('ef'), '__func__', None)
+    prev = st['prev']
+    if prev is not None and ef is not None and ads:
+        q = ads[0]
+        if ef.__qualname__ == 'AddDelete.add':
+            st['adds'] += 1
+            new = cur_nodes - prev['nodes']
+            st['born'] |= new
+            if len(new) != 1 or prev['nodes'] - cur_nodes: r = r or f"add changed the node set from {sorted(prev['nodes'])} to {sorted(cur_nodes)}"
+            else:
+                i = next(iter(new)); nb = list(g.adj[i])
+                if i in nb: r = r or f"new node {i} has a self-loop"
+                if len(set(nb)) != len(nb): r = r or f"new node {i} has parallel edges"
+                if not set(nb) <= prev['nodes']: r = r or f"new node {i} is joined to {sorted(set(nb) - prev['nodes'])}, which did not exist"
+                if len(prev['nodes']) >= q._c and len(nb) != q._c: r = r or f"new node {i} has degree {len(nb)}, configured degree {q._c}"
+                if prev['edges'] != {frozenset(x) for x in g.edges() if i not in x}: r = r or "add changed edges not incident to the new node"
+        elif ef.__qualname__ == 'AddDelete.delete':
+            st['dels'] += 1; st['dead'].add(e)
+            if cur_nodes != prev['nodes'] - {e}: r = r or f"delete of {e} changed the node set from {sorted(prev['nodes'])} to {sorted(cur_nodes)}"
+            if {frozenset(x) for x in g.edges()} != {x for x in prev['edges'] if e not in x}: r = r or f"delete of {e} changed edges not incident to it"
+        else:
+            if cur_nodes != prev['nodes'] or {frozenset(x) for x in g.edges()} != prev['edges']: r = r or f"event {name} changed the network"
+    # the disease model's loci: equal to the sets they track; nothing may mention a node that left the network
+    k2 = None
+    for l in d.loci().values():
+        q = l.process()
+        if not isinstance(q, CompartmentedModel): continue
+        want, both = spec_of_locus(l, g, q)
+        if want is None: continue
+        have = set(l)
+        if have != want:
+            bad = have ^ want
+            touched = {y for x in bad for y in (x if isinstance(x, tuple) else (x,))}
+            msg = f"locus {l.name()} holds {sorted(have)} but the network has {sorted(want)}"
+            if ex.__dict__.get('_vp_combo') == 'seq' and touched & (st['born'] | st['dead']) and r is None:
+                k2 = k2 or ("cookbook sequence recipe: " + msg + f" (nodes added / deleted by the sibling add-delete process: {sorted(touched & (st['born'] | st['dead']))})")
+            else: r = r or msg
+    st['prev'] = dict(nodes=cur_nodes, edges={frozenset(x) for x in g.edges()})
+    if r is None and k2:
+        st['k2'] = True
+        return ('adddel-k2', k2)
+    st['prev'] = dict(nodes=cur_nodes, edges={frozenset(x) for x in g.edges()})
+    return ('adddel', r) if r else None
+
+
+def final_adddel(d, ex, res, md, spec):
+    st = d.__dict__.get('_vp_ad')
+    n0 = len(spec['nodes'])
+    if st is None: return None
+    if d.network().order() != n0 + st['adds'] - st['dels']:
+        return f"final order {d.network().order()} != initial {n0} + {st['adds']} additions - {st['dels']} deletions"
+    return None
+
+
+oracle_adddel.at_start = True
+ORACLES['adddel'] = oracle_adddel
+FINALS['adddel'] = final_adddel
